@@ -82,7 +82,7 @@ impl Run {
 fn pick_threads(rng: &mut Rng, items: usize) -> usize {
     match rng.below(6) {
         0 | 1 => rng.range(1, 8) as usize,
-        2 => rng.range(9, 32) as usize,
+        2 => rng.range(9, 40) as usize,
         3 => items.max(1),
         4 => items + 1,
         _ => 2 * items.max(1),
@@ -114,7 +114,9 @@ pub fn generate(seed: u64, idx: u64, thorough: bool) -> Run {
     let ns = ns_for(&backend);
     let kind = rng.below(100);
     let scenario = if kind < 62 {
-        let outputs = rng.range(1, 12) as usize;
+        // mostly small; sometimes more outputs than the host has cores (a worker cap tied to the
+        // hardware only shows there)
+        let outputs = if rng.chance(120) { rng.range(17, 40) as usize } else { rng.range(1, 12) as usize };
         Scenario::Eval(EvalSpec {
             n: *rng.pick(ns),
             rank: rng.range(1, 2) as u32,
